@@ -121,6 +121,14 @@ def run(ctx):
                              result=("err: " + str(im.get("error")) if isinstance(res, str) else list(np.asarray(res).shape))))
         ctx.count("policy:" + c["policy"]); ctx.count("n_dt:%d" % len(set(dts))); ctx.count("result:" + ("err" if isinstance(res, str) else "ok"))
         ctx.traces += 1
+        if not isinstance(res, str) and ctx.evaluations % 3 == 0:
+            # history on the recording objects: processed, edited in place, processed again (same objects, same settings) vs fresh objects with the edited samples
+            bad = pg.edited_reprocess_probe(c, np.random.default_rng(ctx.seed + ctx.evaluations))
+            ctx.supporting["edited_reprocess_cases"] = ctx.supporting.get("edited_reprocess_cases", 0) + 1
+            if bad is not None:
+                ctx.violation("curve-independent-of-other-records", dict(case=c, why="the same recording objects, edited in place after a first process() and processed again, "
+                                                                                    "do not give the curves of fresh objects holding the edited samples", **bad),
+                              seam="hvsrpy.process called twice on edited recording objects")
         ok, what = pg.results_agree(c, im, mo)
         nfft = max(len(r["vt"]) for r in c["records"])
         if not ok:
